@@ -112,6 +112,8 @@ def run(repo, rep, tier):
 
 
 VARIANTS = [
+    M("allowed-version-unpacks-split", "containers.py", '        version = re.sub(r"(\\d+)\\.(\\d+)\\.\\d+", r"\\1.\\2", version)\n        return version in SUPPORTED_NUMBERS_VERSIONS',
+      '        major, minor = version.split(".")[:2]\n        return f"{major}.{minor}" in SUPPORTED_NUMBERS_VERSIONS', "C17.R1"),
     M("drop-badzip-handler", "iwork.py", "        except ZIP_READ_ERRORS:\n            msg = \"invalid Numbers document\"\n            raise FileFormatError(msg) from None",
       "        except KeyError:\n            msg = \"invalid Numbers document\"\n            raise FileFormatError(msg) from None", "C17.R1"),
     M("narrow-store-blob-handler", "iwork.py", "            except Exception as e:\n                msg = f\"{filename}: invalid IWA file {filename}\"", "            except ValueError as e:\n                msg = f\"{filename}: invalid IWA file {filename}\"", "C17.R1"),
